@@ -42,6 +42,7 @@ func init() {
 		PanicIsViolation: false, CPUBudget: 300, Chunk: 4, MinNontrivial: 50,
 		Gen:  genC19,
 		Exec: execC19,
+		Post: postC19,
 	})
 }
 
@@ -135,6 +136,9 @@ func execC19(c run.Case) (res run.Result) {
 	contain, sibl := 0, 0
 	sigSeen := map[string]bool{}
 	viol := func(clause, trig, msg string) {
+		if !strings.HasPrefix(trig, "other:") {
+			res.Inc("fail_" + strings.TrimPrefix(clause, "C19.") + "_" + trig)
+		}
 		sig := clause + ":" + trig
 		if sigSeen[sig] {
 			res.Inc("additional_violations_same_signature")
@@ -191,10 +195,23 @@ func execC19(c run.Case) (res run.Result) {
 				if ro.Y2() > rp.Y2()+tol {
 					side += "bottom"
 				}
-				trig := fmt.Sprintf("%s:parent=%s,%s%s:child=%s%s:dir=%s:side=%s", in.Engine, c19ParentKind(p), c19LabelClass(p), c19If(c19HasDims(p), ",dims"), c19Kind(o), c19If(c19HasDims(o), ",dims"), dir, side)
-				if layNearRoot(o) != nil {
-					trig += ":in-constant-near"
+				horiz := strings.Contains(side, "left") || strings.Contains(side, "right")
+				vert := strings.Contains(side, "top") || strings.Contains(side, "bottom")
+				var trig string
+				switch {
+				case layIsGrid(p) && ((horiz && p.WidthAttr != nil) || (vert && p.HeightAttr != nil)):
+					// SizeToContent honours width/height of a grid container even when the cells need more
+					trig = "grid-with-explicit-size-smaller-than-content"
+				case in.Engine == "dagre" && !layIsGrid(p) && c19CrossingEdge(b.G, p):
+					trig = "dagre:container-with-boundary-crossing-edge"
+				case in.Engine == "elk" && !layIsGrid(p) && len(layExtentObj(p)) > 1:
+					// the ELK node of a container is grown by its margin only as a MINIMUM size; when the
+					// children need more, shrinking the node back by the margin pushes it over them
+					trig = "elk:container-with-outside-label-icon-or-offset-margin"
+				default:
+					trig = fmt.Sprintf("other:%s:parent=%s,%s%s:child=%s%s", in.Engine, c19ParentKind(p), c19LabelClass(p), c19If(c19HasDims(p), ",dims"), c19Kind(o), c19If(c19HasDims(o), ",dims"))
 				}
+				_ = dir
 				viol("C19.child-outside-parent", trig, fmt.Sprintf("board %s: %q %v is not inside its parent %q %v", b.Path, o.AbsID(), ro, p.AbsID(), rp))
 			}
 		}
@@ -233,25 +250,25 @@ func execC19(c run.Case) (res run.Result) {
 						if ka > kb {
 							ka, kb = kb, ka
 						}
-						trig := fmt.Sprintf("%s:parent=%s:%s+%s:dir=%s", in.Engine, c19ParentKind(p), ka, kb, dir)
-						var extra []string
-						if c19HasDims(a) || c19HasDims(bb) {
-							extra = append(extra, "dims")
-						}
-						if c19LabelClass(a) == "label-outside" || c19LabelClass(bb) == "label-outside" {
-							extra = append(extra, "outside-label")
-						}
-						if c19Connected(b.G, a, bb) {
-							extra = append(extra, "connected")
-						}
-						if a.Top != nil || bb.Top != nil || a.Left != nil || bb.Left != nil {
-							extra = append(extra, "top-left")
-						}
-						if layNearRoot(a) != nil {
-							extra = append(extra, "in-constant-near")
-						}
-						if len(extra) > 0 {
-							trig += ":" + strings.Join(extra, ",")
+						var trig string
+						switch {
+						case in.Engine == "dagre" && !layIsGrid(p) && (c19InternalEdge(b.G, a) || c19InternalEdge(b.G, bb)):
+							trig = "dagre:container-with-internal-edge"
+						default:
+							trig = fmt.Sprintf("other:%s:parent=%s:%s+%s", in.Engine, c19ParentKind(p), ka, kb)
+							var extra []string
+							if c19HasDims(a) || c19HasDims(bb) {
+								extra = append(extra, "dims")
+							}
+							if a.Top != nil || bb.Top != nil || a.Left != nil || bb.Left != nil {
+								extra = append(extra, "top-left")
+							}
+							if layNearRoot(a) != nil {
+								extra = append(extra, "in-constant-near")
+							}
+							if len(extra) > 0 {
+								trig += ":" + strings.Join(extra, ",")
+							}
 						}
 						viol("C19.sibling-overlap", trig, fmt.Sprintf("board %s: siblings %q %v and %q %v overlap by %.1f×%.1f px", b.Path, a.AbsID(), ri, bb.AbsID(), rj, w, h))
 					}
@@ -261,12 +278,50 @@ func execC19(c run.Case) (res run.Result) {
 	}
 	res.Add("containment_pairs", contain)
 	res.Add("sibling_pairs", sibl)
+	res.Add("containment_pairs_"+in.Engine, contain)
+	res.Add("sibling_pairs_"+in.Engine, sibl)
 	res.Nontrivial = contain >= 1 && sibl >= 1
 	if !res.Nontrivial {
 		res.Inc("vacuous_no_container_or_no_siblings")
 	}
-	_ = math.Abs
 	return
+}
+
+// c19RateLimits bounds the share of violating pairs per recorded class (≈ 4× the rate observed
+// on the unchanged tree), so that a class matched as a known finding cannot hide a regression
+// that makes it the norm.
+var c19RateLimits = map[string]struct {
+	of    string
+	limit float64
+}{
+	"fail_child-outside-parent_dagre:container-with-boundary-crossing-edge":            {"containment_pairs_dagre", 0.04},
+	"fail_sibling-overlap_dagre:container-with-internal-edge":                          {"sibling_pairs_dagre", 0.015},
+	"fail_child-outside-parent_elk:container-with-outside-label-icon-or-offset-margin": {"containment_pairs_elk", 0.04},
+}
+
+func postC19(d *run.Driver, results []run.Result) {
+	tot := map[string]int{}
+	for _, r := range results {
+		for k, v := range r.Feat {
+			if strings.HasPrefix(k, "fail_") || strings.HasSuffix(k, "_pairs_dagre") || strings.HasSuffix(k, "_pairs_elk") {
+				tot[k] += v
+			}
+		}
+	}
+	rates := map[string]float64{}
+	for k, lim := range c19RateLimits {
+		n := tot[lim.of]
+		if n < 200 {
+			continue
+		}
+		rate := float64(tot[k]) / float64(n)
+		rates[k] = math.Round(rate*10000) / 10000
+		if rate > lim.limit {
+			d.ReportViolation(run.Case{ID: "rate", Kind: "post"}, run.Violation{Clause: "C19.failure-rate", Sig: "C19.failure-rate:" + strings.TrimPrefix(k, "fail_"),
+				Msg: fmt.Sprintf("%d of %d pairs (%.2f%%) fail in class %s; limit %.2f%%", tot[k], n, rate*100, k, lim.limit*100)})
+		}
+	}
+	d.Extra["failure_rates"] = rates
 }
 
 func c19If(b bool, s string) string {
@@ -274,6 +329,35 @@ func c19If(b bool, s string) string {
 		return s
 	}
 	return ""
+}
+
+// c19CrossingEdge: an edge has exactly one endpoint in p's subtree (p itself counts as inside).
+func c19CrossingEdge(g *d2graph.Graph, p *d2graph.Object) bool {
+	for _, e := range g.Edges {
+		if e.Src == nil || e.Dst == nil {
+			continue
+		}
+		if e.Src.IsDescendantOf(p) != e.Dst.IsDescendantOf(p) {
+			return true
+		}
+	}
+	return false
+}
+
+// c19InternalEdge: o is a container and an edge runs between two of its strict descendants.
+func c19InternalEdge(g *d2graph.Graph, o *d2graph.Object) bool {
+	if len(o.ChildrenArray) == 0 {
+		return false
+	}
+	for _, e := range g.Edges {
+		if e.Src == nil || e.Dst == nil || e.Src == o || e.Dst == o {
+			continue
+		}
+		if e.Src.IsDescendantOf(o) && e.Dst.IsDescendantOf(o) {
+			return true
+		}
+	}
+	return false
 }
 
 // c19Connected: an edge joins the subtrees of a and b.
